@@ -96,7 +96,7 @@ def kw_passthrough(fi, call, expected, role):
         if name.isidentifier() and name in fi.params:
             rb = rebound_before(fi, name, call)
             if rb:
-                return violation("ROLE", fi, role, "`%s` is modified at line %d before being passed on" % (name, rb[0].lineno), rb[0])
+                return named("ROLE", fi, role, "`%s` is modified at line %d before being passed on" % (name, rb[0].lineno), rb[0])
     return holds("ROLE", fi, role, unparse(call)[:90], call, nontrivial=False)
 
 
